@@ -329,6 +329,22 @@ def run(p: Program, rep: Report, tier: str) -> None:
             per_member_weak = any(_mentions_weak(x_) for x_ in stages) or any(_mentions_weak(f) and any(t[0] == "elem" for t in subterms(f)) for f, _ in pa.facts)
             whole_weak = split_recv != HDR
             quotes = any(t[0] == "call" and t[1][0] == "attr" and t[1][2] == "strip" and t[2] == (("const", '"'),) for x_ in stages for t in subterms(x_))
+            # the members of a ','-split still carry the blank that follows the comma: the weak-prefix test has to look at the
+            # whitespace-stripped member, or `W/"a", W/"b"` only ever matches through its first member
+            weak_recvs = []
+            for x_ in list(stages) + [f for f, _ in pa.facts]:
+                for t in subterms(x_):
+                    if t[0] == "call" and t[1][0] == "attr" and t[1][2] in ("startswith", "removeprefix") and t[2] and _mentions_weak(t[2][0]):
+                        weak_recvs.append(t[1][1])
+                    elif t[0] == "cmp" and t[1] in ("Eq", "NotEq") and _mentions_weak(t[3]) and t[2][0] == "sub":
+                        weak_recvs.append(t[2][1])
+            unstripped = [r for r in weak_recvs if any(u[0] == "elem" for u in subterms(r))
+                          and not any(u[0] == "call" and u[1][0] == "attr" and u[1][2] in ("strip", "lstrip") and not u[2] for u in subterms(r))]
+            if unstripped and not whole_weak:
+                rep.violation("R14.4", construct(inm, text="weak prefix tested before the member is stripped"), where(inm),
+                              f"the weak prefix 'W/' is looked for on {show(unstripped[0])[:60]} - a member of the ','-split that still carries the blank after the comma: in `W/\"a\", W/\"b\"` "
+                              "only the first member can match, so the ETag of an earlier 200 sent back as a later list member does not revalidate (a full 200 instead of 304)")
+                continue
             if whole_weak:
                 rep.violation("R14.4", construct(inm, text="if_none_match[2:] before split"), where(inm),
                               "the weak prefix 'W/' is stripped from the whole header before it is split: a weak tag that is not the first list member never matches (a fresh copy is re-sent), and a leading 'W/' is cut off a strong first member")
